@@ -134,6 +134,28 @@ fn roundtrip_case(nodes: &[f64], nvars: usize, prec: usize, big: bool, dir: &std
             ensure!((r.trapezium(0) - m.trapezium(0)).abs() <= 4.0 * (n as f64) * tol * scale, "trapezium after read() into a mesh of {} nodes: {} expected {}", target, r.trapezium(0), m.trapezium(0));
         }
     }
+    // a second output() to the SAME path with less text (fewer nodes, lower precision): the file holds the new mesh only
+    if n >= 3 {
+        let short_nodes = &nodes[..2];
+        let mut ms = Mesh1D::<f64, f64>::new(Vector::create(short_nodes.to_vec()), nvars);
+        for i in 0..2 {
+            for v in 0..nvars {
+                ms[i][v] = (i + 2 * v) as f64 + 1.0;
+            }
+        }
+        let p2 = prec.min(3);
+        ms.output(ps, p2);
+        let mut r = Mesh1D::<f64, f64>::new(Vector::create(vec![0.0, 1.0, 2.0, 3.0]), nvars);
+        r.read(ps);
+        ensure!(r.nnodes() == 2, "a shorter mesh written over a longer file reads back with {} nodes instead of 2 (output() must replace the file)", r.nnodes());
+        let tol2 = 0.5 * 10f64.powi(-(p2 as i32)) * 1.0000001;
+        for i in 0..2 {
+            ensure!((r.coord(i) - short_nodes[i]).abs() <= tol2, "overwritten file: node {} read back as {}", i, r.coord(i));
+            for v in 0..nvars {
+                ensure!((r[i][v] - ms[i][v]).abs() <= tol2, "overwritten file: node {} var {} read back as {} expected {}", i, v, r[i][v], ms[i][v]);
+            }
+        }
+    }
     let _ = std::fs::remove_file(&path);
     Ok(())
 }
